@@ -77,7 +77,7 @@ func Quote(s string, lang LangVariant) (string, error) {
 		case '\x00':
 			return "", &QuoteError{ByteOffset: offs, Message: quoteErrNull}
 		}
-		if r == utf8.RuneError || !unicode.IsPrint(r) {
+		if (r == utf8.RuneError && size == 1) || !unicode.IsPrint(r) {
 			if lang.in(LangPOSIX) {
 				return "", &QuoteError{ByteOffset: offs, Message: quoteErrPOSIX}
 			}
